@@ -19,15 +19,18 @@ What is machine-checked here
 * `C02_no_stuck_state`     there is no reachable state in which somebody sleeps on the mutex while
                            every other thread is idle holding nothing or asleep as well.
 
-What is a paper argument: the step from `C02_no_stuck_state` to "every lock call eventually
-returns if every holder eventually releases" (fair termination).  The model has no fairness
-notion; the safety core proved here excludes every state from which no thread can move, and
+The step from `C02_no_stuck_state` to "every lock call eventually returns if every holder
+eventually releases": see `Props/C02Progress.lean`, which proves the statement
+`C02_solo_progress_full` kept below (`theorem C02_solo_progress : C02_solo_progress_full`), its
+release-side counterpart, and the leads-to argument in existential-schedule form
+(`C02_leads_to_wake`, `C02_can_always_complete`, with an explicit ranking).  What remains a paper
+argument is fair termination for ALL weakly fair schedules (`C02_fair_termination_full` there).
+The safety core proved here excludes every state from which no thread can move, and
 `C02_responsible` names, in every state with a queued sleeper, a thread that is awake and whose
 remaining steps lead to a wake-up (a holder, which releases by hypothesis and then runs
 unlock_slow because MU_WAITING is set and MU_DESIG_WAKER is not; or a woken thread in flight,
 which either acquires and becomes such a holder, or re-queues behind a holder).
-`C02_solo_progress` is only proved for try-locks (`C02_solo_progress_partial`); the full statement
-is kept as `C02_solo_progress_full`.
+In THIS file `C02_solo_progress` is only proved for try-locks (`C02_solo_progress_partial`).
 
 Findings about the formulation (see the report)
 * The disjunct "MU_DESIG_WAKER is set and a designated waker is in flight" of the task's sketch of
@@ -193,7 +196,9 @@ theorem C02_no_stuck_state {cfg : Cfg} {s : State} (hr : Reachable cfg s)
 
 /-! ## solo progress (stretch) -/
 
-/-- Full statement (NOT proved), for the ACQUIRING operations: from a reachable state in which the
+/-- Full statement (proved in `Props/C02Progress.lean`: `C02_solo_progress`, and in the sharper form
+    `C02_solo_acquire` with the constant 14 + 3·M and the conclusion "has returned"; the release
+    side is `C02_solo_release` there), for the ACQUIRING operations: from a reachable state in which the
     spinlock is free or its own, a thread inside lock / rlock / lock_slow that is not asleep, run
     alone, returns or goes to sleep within a bound linear in the stale counts `M` of the semaphores
     (it consumes a stale count with one P per trip round the wait loop).  The hypothesis on the
